@@ -227,5 +227,8 @@ func init() {
 	for _, pr := range []string{"C02", "C06", "C05"} {
 		reg(&HarnessSpec{Prop: pr, Name: "G:nested", What: whatG + " - corpus case nested (a nested struct of the SAME type on both sides, which is copied whole unless a notation addresses one of its members: :skip / :literal / :map on a member that is itself a struct, on a struct two levels down, on a deep leaf, by regexp, in return and arg style, by-value operands): the addressed member gets exactly its notation, every other member is copied, nothing else is touched", Bounds: "8 generated functions; pointer depth 3", Assumes: []string{aG}})
 	}
+	for _, pr := range []string{"C02", "C16", "C06"} {
+		reg(&HarnessSpec{Prop: pr, Name: "G:edge", What: whatG + " - corpus case edge (a receiver / named result called e or i, i.e. like the copy loops' variables; :stringer on a pointer field that may be nil; a function generated in the same run used as converter on a nested pointer that may be nil; additional arguments and $1 mapped into members of a nested struct; :typecast converting whole convertible structs and pointers)", Bounds: "6 generated functions; pointer depth 3; slice length <= 2", Assumes: []string{aG}})
+	}
 	reg(&HarnessSpec{Prop: "C13", Name: "G:more", What: "every corpus case is generated twice in fresh processes: exit status, diagnostics and output bytes must be identical (end-to-end validation of determinism on the corpus)", Bounds: "corpus, 2 runs per case", Assumes: []string{aG}})
 }
